@@ -470,6 +470,12 @@ static void run_curve(Out& out, const CurveDesc& d) {
             std::vector<Vec2> tens(np + 1, Vec2{call.num[0], call.num[1]});
             bool* bc = (bool*)calloc(np + 1, sizeof(bool));
             (void)cons;
+            // optional angle constraints: per point (flag, angle) after the four scalars
+            if (call.num.size() >= 4 + 2 * (np + 1))
+                for (size_t i = 0; i <= np; i++) {
+                    bc[i] = call.num[4 + 2 * i] != 0;
+                    angles[i] = call.num[5 + 2 * i];
+                }
             // the control points the call must use: the same public routine on the same input
             std::vector<Vec2> hv(3 * (np + 1) + 1);
             hv[0] = ref;
@@ -1318,6 +1324,11 @@ static CurveDesc gen_curve(Rng& g, Out& out, bool thorough) {
                 if (c.cycle) cur = before;  // a closed interpolation returns to its first point
                 double tin = g.chance(70) ? 1.0 : 0.75 + (double)g.below(200) / 100, tout = g.chance(70) ? 1.0 : 0.75 + (double)g.below(200) / 100;
                 c.num = {tin, tout, g.chance(70) ? 1.0 : (double)g.below(300) / 100, g.chance(70) ? 1.0 : (double)g.below(300) / 100};
+                if (g.chance(30))  // tangent directions imposed at some of the points (closed curves included)
+                    for (size_t i = 0; i <= o.size(); i++) {
+                        c.num.push_back(g.chance(40) ? 1.0 : 0.0);
+                        c.num.push_back(G.angle_any());
+                    }
             } break;
             default: {  // parametric: a cubic through a callback; f(0) = 0 (relative) or the current point
                 c.kind = "param";
